@@ -260,6 +260,19 @@ def run_case(ctx, n, vkind, ins, base=(), tag=''):
         if is_err(got) or list(got.items()) != [(k, int(exp[k])) for k in sorted(exp)]:
             ctx.fail('roundtrip-values', 'typed values do not come back', inp, repr(got)[:300], repr(sorted(exp.items()))[:300])
             return
+    # history: the same HashMap serialises to the same cell again; cells parsed earlier in this process still parse the same
+    again = call(hm.serialize)
+    if is_err(again) or again.hash != cell.hash:
+        ctx.fail('history:serialize-twice', 'a second serialize() of the same HashMap gave a different result', inp, repr(again), cell.hash.hex())
+        return
+    hist = getattr(ctx, '_c09_hist', [])
+    for pc, pn, pw in hist:
+        g = show_dict(call(lambda: HashMap.parse(pc.begin_parse(), pn)))
+        if g != pw:
+            ctx.fail('history:reparse', 'a dictionary cell parsed differently after other dictionaries were serialised/parsed in the same process',
+                     inp, g, pw)
+            return
+    ctx._c09_hist = (hist + [(cell, n, want)])[-3:]
     sd = Builder().store_dict(cell).end_cell()
     if sd.bits.to01() != '1' or len(sd.refs) != 1 or sd.refs[0].hash != cell.hash:
         ctx.fail('store-dict', 'store_dict(cell) is not a 1 bit and one reference', inp, repr(sd), '1 + ref')
